@@ -12,19 +12,27 @@ export GOFLAGS=-mod=mod GOPROXY=off GOSUMDB=off GOTOOLCHAIN=local
 export GOCACHE="${KMC_GOCACHE:-/verif/.cache/go-build}"
 export CGO_ENABLED=0
 mkdir -p .cache/bin .cache/run
+# KMC_REPO: the knut tree to verify (default /repo). A different tree is used only for
+# trying seeded changes in a scratch worktree without touching /repo.
+REPO="${KMC_REPO:-/repo}"
+MODFLAG=""
+if [ "$REPO" != "/repo" ]; then
+  sed "s#=> /repo#=> $REPO#" harness/go.mod > harness/alt.mod; cp harness/go.sum harness/alt.sum
+  MODFLAG="-modfile=alt.mod"
+fi
 exec 9>.cache/build.lock
 flock 9
 stamp() {
-  { (cd /repo && find . -name '*.go' -not -path './.git/*' -o -name go.mod -o -name go.sum | sort | xargs sha256sum)
+  { (cd "$REPO" && find . -name '*.go' -not -path './.git/*' -o -name go.mod -o -name go.sum | sort | xargs sha256sum)
     find govirt rt shims harness -type f \( -name '*.go' -o -name go.mod -o -name go.sum \) -not -path 'harness/realdeps/*' | sort | xargs sha256sum
-    go version; } | sha256sum | cut -d' ' -f1
+    go version; echo "$REPO"; } | sha256sum | cut -d' ' -f1
 }
 NEW=$(stamp)
 build_race() {
   if [ "${1:-}" = "race" ]; then
     if [ ! -f .cache/race.stamp ] || [ "$(cat .cache/race.stamp)" != "$NEW" ] || [ ! -x .cache/bin/kmc-race ]; then
       rm -f .cache/race.stamp
-      (cd harness && CGO_ENABLED=1 go build -race -tags verif -overlay "$ROOT/.cache/overlay/overlay.json" -o ../.cache/bin/kmc-race ./cmd/kmc)
+      (cd harness && CGO_ENABLED=1 go build $MODFLAG -race -tags verif -overlay "$ROOT/.cache/overlay/overlay.json" -o ../.cache/bin/kmc-race ./cmd/kmc)
       echo "$NEW" > .cache/race.stamp
     fi
   fi
@@ -38,8 +46,8 @@ if [ ! -x .cache/bin/govirt ] || [ -n "$(find govirt -newer .cache/bin/govirt -n
   (cd govirt && go build -o ../.cache/bin/govirt .)
 fi
 [ -d harness/realdeps/conc ] || ./mkreal.sh
-.cache/bin/govirt -repo /repo -rt "$ROOT/rt" -out "$ROOT/.cache/overlay"
-(cd harness && go build -tags verif -overlay "$ROOT/.cache/overlay/overlay.json" -o ../.cache/bin/kmc ./cmd/kmc)
-(cd /repo && go build -o "$ROOT/.cache/bin/knut-plain" .)
+.cache/bin/govirt -repo "$REPO" -rt "$ROOT/rt" -out "$ROOT/.cache/overlay"
+(cd harness && go build $MODFLAG -tags verif -overlay "$ROOT/.cache/overlay/overlay.json" -o ../.cache/bin/kmc ./cmd/kmc)
+(cd "$REPO" && go build -o "$ROOT/.cache/bin/knut-plain" .)
 echo "$NEW" > .cache/build.stamp
 build_race "${1:-}"
